@@ -27,6 +27,10 @@ Ops == IF ~mem.up THEN {} ELSE
   {[a |-> "Append", recs |-> Batch(n, CurEpoch + de, key)] :
       n \in {n \in 1..MaxBatch : nVal + n <= MaxRecs}, de \in {d \in 0..1 : CurEpoch + d <= MaxEpoch},
       key \in IF cfg.compact THEN Keys ELSE {"a"}}      \* keys only matter to compaction
+  \* replicated append of two records, the second one in the next leader epoch
+  \cup {[a |-> "AppendSet", recs |-> <<[ep |-> CurEpoch, val |-> nVal + 1, key |-> key],
+                                      [ep |-> CurEpoch + 1, val |-> nVal + 2, key |-> key]>>] :
+         key \in {k \in (IF cfg.compact THEN Keys ELSE {"a"}) : nVal + 2 <= MaxRecs /\ CurEpoch + 1 <= MaxEpoch}}
   \cup {[a |-> "Truncate", o |-> o] : o \in {o \in 0..(NewestOf(mem) + 1) : o > mem.hw}}
   \cup {[a |-> "SetHW", h |-> h] : h \in (mem.hw + 1)..NewestOf(mem)}
   \cup {[a |-> "NewLeaderEpoch", e |-> CurEpoch + 1] : x \in {1} \cap {y \in {1} : CurEpoch + 1 <= MaxEpoch}}
@@ -45,7 +49,7 @@ MCInit ==
   /\ phase = "pre" /\ pre = NoPre /\ last = [a |-> "Open"]
   /\ nOps = 0 /\ nPost = 0 /\ nVal = 0 /\ hist = <<>> /\ pts = {}
 
-Count(op) == IF op.a = "Append" THEN Len(op.recs) ELSE 0
+Count(op) == IF op.a \in {"Append", "AppendSet"} THEN Len(op.recs) ELSE 0
 
 MCOp(op) ==
   /\ phase = "pre" /\ nOps < MaxOps
